@@ -1,5 +1,6 @@
 import RbV.Model.Tsv
 import RbV.Lemmas.Tsv
+import RbV.Lemmas.CsvPlain
 /-!
 # C13 — BED and GFF/GTF records survive write → read; comments skipped; malformed lines are errors
 
@@ -44,6 +45,16 @@ theorem csv_file_roundtrip (items : List Item) (fss : List (List (List Nat)))
     (hcomments : ∀ t, Item.comment t ∈ items → LF ∉ t) :
     rows (fileOf items) = fss :=
   rows_fileOf items fss hitems hfss hcomments
+
+/-- **Reading quote-free bytes is reading lines**: on bytes without `"` and CR — whatever else they contain,
+garbage and truncated lines included — the csv automaton gives the LF-separated lines that are neither empty nor
+start with `#`, split at TAB (`rowsPlain`, the format the model consisted of before quoting was added). -/
+theorem rows_eq_rowsPlain (bytes : List Nat) (hq : QUOTE ∉ bytes) (hcr : CR ∉ bytes) :
+    rows bytes = rowsPlain bytes :=
+  rows_plain bytes hq hcr
+
+example : rows [99, 9, 49, 9, 50, 10, 35, 120, 10, 10, 100, 9, 51] = [[[99], [49], [50]], [[100], [51]]] := by
+  rw [rows_eq_rowsPlain _ (by decide) (by decide)]; decide
 
 /-- **BED round trip.**  Any file whose record lines are the written forms of records with a common number `k`
 of auxiliary columns — with comment and blank lines interleaved at will — is read back as exactly those records,
